@@ -334,6 +334,10 @@ type c20WebhookScenario struct {
 	Alerts      []c20PAlert       `json:"alerts"`
 	MaxAlerts   int               `json:"max_alerts"`
 	Status      int               `json:"status"` // HTTP status the endpoint answers with
+	// TimeoutMs: the receiver's `timeout` option (0: not set). DelayMs: how long the endpoint takes to answer.
+	// Generated either as (5000, 0): never hit, or (30, 150): every request runs into the per-request timeout.
+	TimeoutMs int `json:"timeout_ms,omitempty"`
+	DelayMs   int `json:"delay_ms,omitempty"`
 }
 
 var c20HTTPStatuses = []int{200, 200, 200, 201, 204, 400, 404, 429, 500, 503}
@@ -354,7 +358,15 @@ func genC20Webhook(t *rapid.T) c20WebhookScenario {
 	if maxA < 0 {
 		maxA = 0
 	}
+	tmo, delay := 0, 0
+	switch rapid.IntRange(0, 5).Draw(t, "timeoutClass") {
+	case 0:
+		tmo = 5000
+	case 1:
+		tmo, delay = 30, 150
+	}
 	return c20WebhookScenario{
+		TimeoutMs: tmo, DelayMs: delay,
 		Receiver:    rapid.StringOfN(rapid.SampledFrom(c20RecvAlphabet), 1, 10, -1).Draw(t, "recv"),
 		GroupKey:    rapid.SampledFrom([]string{`{}:{alertname="a"}`, `{}/{job="x"}:{job="x", 团队="世界"}`, "{}:{}", "k\n\"quoted\""}).Draw(t, "gk"),
 		GroupLabels: genC20KV(t, c20LabelNames, c20LabelVals, 3, "gl"),
@@ -383,6 +395,9 @@ func execC20Webhook(sc c20WebhookScenario) (res pbt.Result) {
 		b, _ := io.ReadAll(r.Body)
 		bodies = append(bodies, b)
 		ctype = r.Header.Get("Content-Type")
+		if sc.DelayMs > 0 {
+			time.Sleep(time.Duration(sc.DelayMs) * time.Millisecond)
+		}
 		w.WriteHeader(sc.Status)
 		io.WriteString(w, "answer")
 	}))
@@ -390,6 +405,7 @@ func execC20Webhook(sc c20WebhookScenario) (res pbt.Result) {
 		URL:        amcommoncfg.SecretTemplateURL(srv.URL),
 		HTTPConfig: &commoncfg.HTTPClientConfig{},
 		MaxAlerts:  uint64(sc.MaxAlerts),
+		Timeout:    time.Duration(sc.TimeoutMs) * time.Millisecond,
 	}, tmpl, nopLog, commoncfg.WithKeepAlivesDisabled())
 	if err != nil {
 		srv.Close()
@@ -415,6 +431,14 @@ func execC20Webhook(sc c20WebhookScenario) (res pbt.Result) {
 	}
 	// delivery verdict
 	switch {
+	case sc.DelayMs > sc.TimeoutMs && sc.TimeoutMs > 0:
+		// "timeout: the maximum time to wait for a webhook request to complete, before failing the request and
+		// allowing it to be retried" (docs/configuration.md): the flush deadline is 30 s away
+		res.Class("per-request-timeout-hit")
+		if nerr == nil || !retry {
+			res.Fail("webhook-timeout-not-retried", "the endpoint took %d ms, the receiver's timeout is %d ms and the flush deadline is far: retry=%v err=%v (want a recoverable error)", sc.DelayMs, sc.TimeoutMs, retry, nerr)
+		}
+		return res
 	case sc.Status/100 == 2:
 		if nerr != nil {
 			res.Fail("webhook-2xx-error", "endpoint answered %d but Notify returned %v", sc.Status, nerr)
@@ -477,7 +501,7 @@ func execC20Webhook(sc c20WebhookScenario) (res pbt.Result) {
 func TestC20Webhook(t *testing.T) {
 	pbt.Run(t, pbt.Spec[c20WebhookScenario]{
 		Property: "C20", Name: "C20Webhook",
-		Rule: "notify/webhook.Notifier posting to a loopback httptest.Server (real time, one fresh server and notifier per case): batches of 1-8 (thorough: 1-20) alerts, max_alerts in {0, 1..len, len-1..len+1, up to len+3}, endpoint answers 2xx/4xx/5xx. The JSON body must list exactly the first max_alerts alerts (all when 0) in order with faithful fields, truncatedAlerts = the rest, status/common labels computed over the listed alerts, groupKey/receiver/version faithful; 2xx => nil error, 5xx => recoverable error, 4xx => unrecoverable error. Non-trivial: the request reached the server.",
+		Rule: "notify/webhook.Notifier posting to a loopback httptest.Server (real time, one fresh server and notifier per case): batches of 1-8 (thorough: 1-20) alerts, max_alerts in {0, 1..len, len-1..len+1, up to len+3}, endpoint answers 2xx/4xx/5xx; one case in six sets the receiver's timeout option to 30 ms against an endpoint that answers after 150 ms (must be a recoverable error), one in six sets it to 5 s (never hit). The JSON body must list exactly the first max_alerts alerts (all when 0) in order with faithful fields, truncatedAlerts = the rest, status/common labels computed over the listed alerts, groupKey/receiver/version faithful; 2xx => nil error, 5xx => recoverable error, 4xx => unrecoverable error. Non-trivial: the request reached the server.",
 		Gen:  genC20Webhook, Exec: execC20Webhook,
 	})
 }
